@@ -110,19 +110,26 @@ FamOverrun ==
                 : k \in {1, 2, 3, 64}}
     \cup {C(B1, EncSize(B1) \o EncSize(d) \o <<144, 200, 5, 1, 2, 3, 4, 5, 145, 100, 200>>) : d \in {200, 205, 204, 405, 404, 406}}
 
+\* copies that end one byte before, exactly at, and one byte past the end of the base, alone or
+\* followed by a one-byte insert, with declared sizes around what the ops announce
+FamEdge ==
+    UNION {{C(B1, EncSize(B1) \o EncSize(d) \o EncCopy(e - n, n) \o tail)
+            : d \in {n - 1, n, n + 1, n + 2}, tail \in {<<>>, <<1, X>>, <<2, X, X>>}}
+           : n \in {1, 5, 299}, e \in {B1 - 1, B1, B1 + 1}}
+
 \* the same 64 KiB copy repeated far beyond a small declared size: output produced by a decoder
 \* without a running bound is out of proportion to base + delta
 FamAmplify ==
     {CR(B2, EncSize(B2) \o EncSize(d), CopyBig, k) : d \in {65536, 131072}, k \in {4096}}
     \cup {CR(0, EncSize(0) \o EncSize(127), Ins127, 2048)}
 
-FamNames == {"hdrdst", "hdrsrc", "hdrtrunc", "copy3", "far", "copytrunc", "insert", "zero", "overrun"}
+FamNames == {"hdrdst", "hdrsrc", "hdrtrunc", "copy3", "far", "copytrunc", "insert", "zero", "overrun", "edge"}
             \cup (IF Big THEN {"copy4", "amplify"} ELSE {})
 CasesOf(f) ==
     CASE f = "hdrdst" -> FamHdrDst [] f = "hdrsrc" -> FamHdrSrc [] f = "hdrtrunc" -> FamHdrTrunc
       [] f = "copy3" -> FamCopy(B2) [] f = "far" -> FamFar [] f = "copytrunc" -> FamCopyTrunc
       [] f = "insert" -> FamInsert [] f = "zero" -> FamZero [] f = "overrun" -> FamOverrun
-      [] f = "copy4" -> FamCopy(B3) [] f = "amplify" -> FamAmplify
+      [] f = "copy4" -> FamCopy(B3) [] f = "amplify" -> FamAmplify [] f = "edge" -> FamEdge
 
 RECURSIVE Flat(_)
 Flat(segs) == IF segs = <<>> THEN <<>> ELSE segs[1] \o Flat(Tail(segs))
